@@ -403,6 +403,10 @@ def job_options(job):
             ak, bk = tuple(ref_alg.indices_for_grades[gs]), tuple(ref_alg.indices_for_grades[gs2])
             use_float = False
             av, bv = frac_vals(rng, ak), frac_vals(rng, bk)
+            if it % 3 == 1:
+                # plain python ints beyond 2**32: exact in python, silently wrapping in any fixed-width container
+                av = [rng.choice([1, -1]) * rng.randint(2 ** 33, 2 ** 40) for _ in ak]
+                bv = [rng.choice([1, -1]) * rng.randint(2 ** 33, 2 ** 40) for _ in bk]
             for name in (base.get('ops') or job['ops']):
                 binary = name in BINARY + ['div']
                 ak_, av_ = ak, av
